@@ -317,6 +317,7 @@ func oracle(c *Case) (int, error) {
 }
 
 func run(t interface{ Fatalf(string, ...any) }, c *Case) {
+	defer fix.Track(prop, "bind", c, c.Summary())()
 	tooFew, err := oracle(c)
 	if err != nil && strings.HasPrefix(err.Error(), "INFRA:") {
 		panic(err.Error())
